@@ -1,4 +1,6 @@
 import GopModel.Driver.Loop
 import GopModel.Driver.Range
+import GopModel.Driver.Interp
 open GopModel.Driver
-def main : IO Unit := runDriver (dispatchWith [("rfor", handleRFor), ("renum", handleREnum)])
+def main : IO Unit := runDriver (dispatchWith
+  [("rfor", handleRFor), ("renum", handleREnum), ("isplit", handleISplit), ("ival", handleIVal)])
